@@ -297,3 +297,44 @@ pub fn write_then_probe_concrete<S: Src>(s: &mut S, g: usize) {
     std::mem::forget(cpu);
     verdict!("write_outcome" => ok_outcome, "probe_classification" => ok_class, "probe_value" => ok_value);
 }
+
+/// Write classification at the boundary set, without any probe read: every write at a plain address
+/// succeeds, every write at an unmapped address (also >= 2^24) fails.  Cheap, and independent of the
+/// symbolic-probe harnesses, which CBMC cannot finish when an address that must be rejected is written
+/// through to DRAM (seeded change C09b).
+pub fn write_outcome<S: Src>(s: &mut S, g: usize) {
+    let mut v = [0u8; GROUP_LEN];
+    let mut i = 0;
+    while i < GROUP_LEN {
+        v[i] = s.u8();
+        i += 1;
+    }
+    let mut cpu = Cpu::new();
+    let mut ok_outcome = true;
+    let mut ok_readback = true;
+    i = 0;
+    while i < GROUP_LEN {
+        let (a, plain) = GROUPS[g][i];
+        let r = cpu.bus.write(a, v[i]);
+        if r.is_ok() != plain {
+            ok_outcome = false;
+        }
+        // concrete-address read-back: the stored byte, or an error for unmapped addresses
+        match cpu.bus.read(a) {
+            Ok(x) => {
+                if !plain || x != v[i] {
+                    ok_readback = false;
+                }
+            }
+            Err(_) => {
+                if plain {
+                    ok_readback = false;
+                }
+            }
+        }
+        i += 1;
+    }
+    witness!(v[0] != 0 && v[7] != 0, "non-zero values written");
+    std::mem::forget(cpu);
+    verdict!("write_outcome" => ok_outcome, "readback" => ok_readback);
+}
